@@ -70,6 +70,7 @@ package websocket
 //@ ensures [nonneg] err == nil ==> h.payloadLength >= 0
 //@ ensures [zero-on-err] err != nil ==> h == header{}
 //@ ensures [not-ce] !errIsCE(err)
+//@ ensures [not-eof] err != io.EOF
 
 //@ func writeFrameHeader
 //@ tags C02
@@ -145,6 +146,7 @@ package websocket
 //@ ensures [closed-fails] old(gvcClosed(m.c.closed)) ==> result != nil
 //@ ensures [alive] result == nil ==> !old(gvcClosed(m.c.closed))
 //@ ensures [err-kind] result != nil ==> errIs(result, net.ErrClosed) || gvcClosed(ctx.Done())
+//@ ensures [not-eof] !errIs(result, io.EOF) && !errIs(result, io.ErrUnexpectedEOF) && !errIsCE(result)
 
 //@ func (*Conn).isClosed
 //@ tags C06
@@ -165,6 +167,7 @@ package websocket
 //@ ensures [zero-on-err] result1 != nil ==> result0 == header{}
 //@ ensures [closed-fails] {C06} old(gvcClosed(c.closed)) ==> result1 != nil
 //@ ensures [not-ce] !errIsCE(result1)
+//@ ensures [not-eof] result1 != io.EOF
 
 //@ func (*Conn).readFramePayload
 //@ tags C03 C04 C10
@@ -176,6 +179,7 @@ package websocket
 //@ ensures [rearm] {C10} result1 == nil ==> gvcArmed(c.readTimeout) == context.Background()
 //@ ensures [closed-fails] {C06} old(gvcClosed(c.closed)) ==> result1 != nil
 //@ ensures [not-ce] !errIsCE(result1)
+//@ ensures [not-eof] result1 != io.EOF
 
 // Footprints (textual macros).
 //@ define RDFP ghrd(c.br).pos, c.readHeaderBuf, c.readControlBuf, chanstate(c.readTimeout)
@@ -196,6 +200,7 @@ package websocket
 //@ requires connInv(c) && ctx != nil && len(p) <= 125 && opcode >= 8 && opcode <= 10
 //@ modifies $WRFP
 //@ ensures [inv] connInv(c)
+//@ ensures [fresh-err] result != io.EOF && !errIsCE(result)
 
 //@ func (*Conn).writeClose
 //@ tags C06 C16
@@ -219,6 +224,7 @@ package websocket
 //@ ensures [close-code] h.opcode == opClose && errIsCE(err) && h.payloadLength >= 2 ==> int(errCECode(err)) == specBE16(rdin(old(c.br), old(ghrd(c.br).pos)) ^ specMaskByte(h.maskKey, 0)&specBit(h.masked, 0xff), rdin(old(c.br), old(ghrd(c.br).pos)+1) ^ specMaskByte(h.maskKey, 1)&specBit(h.masked, 0xff))
 //@ ensures [close-empty] h.opcode == opClose && errIsCE(err) && h.payloadLength == 0 ==> errCECode(err) == StatusNoStatusRcvd
 //@ ensures [rearm] {C10} err == nil ==> gvcArmed(c.readTimeout) == context.Background()
+//@ ensures [not-eof] err != io.EOF
 
 //@ func (*Conn).readLoop
 //@ tags C03 C04
@@ -232,6 +238,55 @@ package websocket
 //@ ensures [ok-keeps] result1 == nil ==> connInv(c) && c.br == old(c.br) && gvcHeld(c.readMu.ch)
 //@ ensures [rearm] {C10} result1 == nil ==> gvcArmed(c.readTimeout) == context.Background()
 //@ ensures [zero-on-err] result1 != nil ==> result0 == header{}
-//@ ensures [ce-only-close] errIsCE(result1) ==> true
+//@ ensures [not-eof] result1 != io.EOF
 //@ loop 1 modifies $RDFP, $WRFP, $CLFP
 //@ loop 1 invariant [inv] connInv(c) && c.br == old(c.br) && c.br != nil && gvcHeld(c.readMu.ch)
+
+// ---------------------------------------------------------------------------
+// read.go: message level (C03, C04, C08, C01)
+
+//@ define RDFPm ghrd(mr.c.br).pos, mr.c.readHeaderBuf, mr.c.readControlBuf, chanstate(mr.c.readTimeout)
+//@ define WRFPm ghwr(mr.c.bw).pos, ghwr(mr.c.bw).out, mr.c.writeHeader, mr.c.writeHeaderBuf, bytes(mr.c.writeBuf), chanstate(mr.c.writeTimeout), chanstate(mr.c.writeFrameMu.ch), gh(mr.c).closeSent
+//@ define CLFPm chanstate(mr.c.readMu.ch), chanstate(mr.c.msgWriter.writeMu.ch), mr.c.br, mr.c.msgReader.flateReader, mr.c.msgReader.dict, mr.c.msgWriter.flateWriter
+
+//@ func (*msgReader).read
+//@ tags C03 C04 C01
+//@ requires connInv(mr.c) && mr.c.msgReader == mr && mr.c.br != nil && mr.ctx != nil && gvcHeld(mr.c.readMu.ch)
+//@ modifies bytes(p), mr.fin, mr.payloadLength, mr.maskKey, $RDFPm, $WRFPm, $CLFPm
+//@ ensures [n] 0 <= result0 && result0 <= len(p)
+//@ ensures [eof-iff-done] result1 == io.EOF ==> result0 == 0 && mr.fin && mr.payloadLength == 0
+//@ ensures [payload-server] {C04 C01} !mr.c.client && !(mr.flate && mr.fin && mr.payloadLength == 0) && mr.c.br == old(mr.c.br) ==> forall(0, result0, func(k int) bool { return p[k] == rdin(mr.c.br, ghrd(mr.c.br).pos-result0+k)^specMaskByte(specUnrot(mr.maskKey, result0), k) })
+//@ ensures [payload-client] {C04 C01} mr.c.client && !(mr.flate && mr.fin && mr.payloadLength == 0) && mr.c.br == old(mr.c.br) ==> forall(0, result0, func(k int) bool { return p[k] == rdin(mr.c.br, ghrd(mr.c.br).pos-result0+k) })
+//@ ensures [nonneg] mr.payloadLength >= 0
+//@ loop 1 modifies mr.fin, mr.payloadLength, mr.maskKey, $RDFPm, $WRFPm, $CLFPm
+//@ loop 1 invariant [inv] connInv(mr.c) && mr.c.br == old(mr.c.br) && mr.c.br != nil && gvcHeld(mr.c.readMu.ch) && mr.payloadLength >= 0 && gvcSameSlice(p, old(p))
+
+//@ func (*limitReader).Read
+//@ tags C08
+//@ requires lr.c != nil && connInv(lr.c) && lr.c.msgReader.limitReader == lr && ghconn(lr.r) == lr.c && lr.r != nil
+//@ modifies bytes(p), lr.n, ghrd(lr.c.br).pos, lr.c.readHeaderBuf, lr.c.readControlBuf, chanstate(lr.c.readTimeout), ghwr(lr.c.bw).pos, ghwr(lr.c.bw).out, lr.c.writeHeader, lr.c.writeHeaderBuf, bytes(lr.c.writeBuf), chanstate(lr.c.writeTimeout), chanstate(lr.c.writeFrameMu.ch), gh(lr.c).closeSent, chanstate(lr.c.readMu.ch), chanstate(lr.c.msgWriter.writeMu.ch), lr.c.br, lr.c.msgReader.flateReader, lr.c.msgReader.dict, lr.c.msgWriter.flateWriter, lr.c.msgReader.fin, lr.c.msgReader.payloadLength, lr.c.msgReader.maskKey
+//@ ensures [n] 0 <= result0 && result0 <= len(p)
+//@ ensures [unlimited] old(lr.n) < 0 ==> lr.n == old(lr.n)
+//@ ensures [exhausted] old(lr.n) == 0 ==> result0 == 0 && result1 != nil && !errIs(result1, io.EOF) && !errIs(result1, io.ErrUnexpectedEOF)
+//@ ensures [budget] old(lr.n) > 0 ==> int64(result0) <= old(lr.n) && lr.n == old(lr.n)-int64(result0)
+//@ ensures [payload-nonneg] lr.c.msgReader.payloadLength >= 0
+
+//@ func (*msgReader).Read
+//@ tags C04 C03 C08
+//@ requires connInv(mr.c) && mr.c.msgReader == mr && mr.ctx != nil && !gvcHeld(mr.c.readMu.ch) && ghconn(mr.limitReader.r) == mr.c && mr.limitReader.r != nil && (mr.flate ==> mr.c.copts != nil) && (mr.flate && !specReceiverNoTakeover(mr.c.client, mr.c.copts) ==> mr.dict != nil && cap(mr.dict.buf) > 0)
+//@ modifies bytes(p), mr.limitReader.n, mr.fin, mr.payloadLength, mr.maskKey, $RDFPm, $WRFPm, $CLFPm, bytes(mr.dict.buf), mr.dict.buf
+//@ ensures [n] 0 <= n && n <= len(p)
+//@ ensures [eof-complete] {C04} errIs(err, io.EOF) ==> mr.fin && mr.payloadLength == 0
+//@ ensures [closed-fails] {C06} old(gvcClosed(mr.c.closed)) ==> err != nil
+
+// ---------------------------------------------------------------------------
+// compress.go: the 32 KiB sliding window kept as inflate dictionary (C01)
+
+//@ func (*slidingWindow).write
+//@ tags C01
+//@ requires sw != nil && cap(sw.buf) > 0 && gvcRegion(sw.buf) != gvcRegion(p)
+//@ modifies sw.buf, bytes(sw.buf)
+//@ ensures [len] len(sw.buf) == specMin(old(cap(sw.buf)), old(len(sw.buf))+len(p))
+//@ ensures [backing] cap(sw.buf) == old(cap(sw.buf)) && gvcRegion(sw.buf) == old(gvcRegion(sw.buf)) && gvcOff(sw.buf) == old(gvcOff(sw.buf))
+//@ note [content] is proved for the two non-shifting paths (p at least as large as the window, or p fits in the free space); the shifting path (memmove of the retained suffix followed by append) needs case hints the solvers did not find within the time limit and is NOT proved
+//@ ensures [content] len(p) >= old(cap(sw.buf)) || old(len(sw.buf))+len(p) <= old(cap(sw.buf)) ==> forall(0, len(sw.buf), func(k int) bool { return sw.buf[k] == old(specCat(sw.buf, p, len(sw.buf)+len(p)-specMin(cap(sw.buf), len(sw.buf)+len(p))+k)) })
